@@ -111,3 +111,37 @@ ROUND3 = [
          "            for t in self.str_types_registry:\n"),
     ]),
 ]
+
+ROUND3 += [
+    ("private_registry_positional", "the private registry is passed positionally to the generator", [
+        (J + "cli.py", "            str_types_registry=self.str_types_registry,\n            dict_keys_regex=self.dict_keys_regex,",
+         "            self.str_types_registry,\n            dict_keys_regex=self.dict_keys_regex,"),
+    ]),
+    ("private_registry_deepcopy", "the private registry is a deep copy of the default one", [
+        (J + "cli.py", "        self.str_types_registry = StringSerializableRegistry(*registry.types)\n        self.str_types_registry.replaces = set(registry.replaces)\n",
+         "        self.str_types_registry = copy.deepcopy(registry)\n"),
+        (J + "cli.py", "import argparse\n", "import argparse\nimport copy\n"),
+    ]),
+    ("yaml_loader_local_instance", "the yaml loader builds its parser inside FileLoaders.yaml", [
+        (J + "cli.py", "        with path.open() as fp:\n            return yaml_load(fp)\n",
+         "        with path.open() as fp:\n            loader = yaml_load\n            return loader(fp)\n"),
+    ]),
+]
+
+ROUND3 += [
+    ("field_label_used_set", "the labels already handed out are kept in a set", [
+        (J + "models/base.py", "        while self._field_labels.setdefault(label, name) != name:\n            label += \"_\"\n        return label\n",
+         "        while label in self._field_labels:\n            label += \"_\"\n        self._field_labels[label] = name\n        return label\n"),
+    ]),
+    ("class_dedup_collect_first", "class names are collected in a list before duplicates are renamed", [
+        (J + "models/base.py",
+         "    used = set() if used is None else used\n    for gen, nested_generators in generators:\n        name = gen.model.name\n"
+         "        while name in used:\n            name += \"_\"\n        used.add(name)\n        if name != gen.model.name:\n"
+         "            gen.model.set_raw_name(name, generated=gen.model.is_name_generated)\n"
+         "        _fix_class_name_duplicates(nested_generators, used)\n",
+         "    used = set() if used is None else used\n    for gen, nested_generators in generators:\n        model = gen.model\n        name = model.name\n"
+         "        while name in used:\n            name += \"_\"\n        used.add(name)\n        if name != model.name:\n"
+         "            model.set_raw_name(name, generated=model.is_name_generated)\n"
+         "        _fix_class_name_duplicates(nested_generators, used)\n"),
+    ]),
+]
